@@ -3,7 +3,7 @@ nightly), Display/Debug of std values, write!/format!/to_string."""
 import z3
 from . import model, pattern
 from .util import *
-from .util import RANGES
+from .util import RANGES, KEEP
 from .. import mir as MIR
 from ..interp import strip_lifetimes
 
@@ -212,6 +212,7 @@ def int_digits(P, v, w, signed):
         total = total * 10 + z3.ZeroExt(W - 8, d - 48)
     P.assume(total == zz)
     memo[(v.v.get_id(), w, signed)] = out_sign + ds
+    KEEP.append(v.v)
     if not out_sign:
         # the digits are by construction the decimal representation of v: parsing them back yields v
         P.state.setdefault('digits_of', {})[tuple(d.get_id() for d in ds)] = Sc(v.v, w, signed)
